@@ -8,6 +8,7 @@ import Swat4.Gen.Facts
 import Swat4.Lemmas.BrowserEndToEnd
 import Swat4.Properties.C03
 import Swat4.Lemmas.Decimal
+import Swat4.Lemmas.RecoverRnd01
 /-!
 # C01 — Server-list replies decode to exactly the selected servers
 
@@ -788,5 +789,26 @@ example : Filter.atoi (decimal (-(2 : Int) ^ 63)) = some (-(2 : Int) ^ 63) ∧
     Filter.atoi (decimal ((2 : Int) ^ 63 - 1)) = some ((2 : Int) ^ 63 - 1) :=
   ⟨decimal_atoi _ (by decide) (by decide), decimal_atoi _ (by decide) (by decide)⟩
 example : decimal (-120) = Bytes.ofAscii "-120" ∧ decimal 0 = Bytes.ofAscii "0" ∧ decimal 9481 = Bytes.ofAscii "9481" := by decide
+
+end Swat4.C01
+
+/-! # Additions (review round 3): the C01 driver's reconstruction of the header draws -/
+namespace Swat4.C01
+open Swat4 Swat4.Browsing Swat4.SBList Swat4.BrowserE2E
+
+/-- **the C01 driver's `recoverRnd` is justified** (reviewer section 3 item 8): `Drv.C01.compareReply` reconstructs the 23
+header draws of the reply under `Facts.gameEncKey` and the parsed request's challenge and runs the handler model
+`browserHandle` with them.  If the reply `out` is what the handler model answers for the real, unobservable draws `rnd`, the
+reconstruction succeeds, yields `Crypt.recovered gameKey req.challenge rnd` (`rnd` at every position that reaches the output:
+`C02.recoverRnd_agrees`), and the handler model run with it answers exactly `out` — so the driver's comparison "model with
+recovered draws = reply" holds iff "model with the real draws = reply". -/
+theorem recoverRnd_reply (order : List Stored → List Stored) (recs : List Stored) (now liveness : Int)
+    (client : Client) (rnd : Crypt.Rnd) (sent : Bytes) (req : Request) (out : Bytes)
+    (hreq : parseRequest Cfg.facts (sent.take readBuffer) = .ok req)
+    (h : browserHandle order recs now liveness client rnd sent = .ok out) :
+    Drv.toVec? 23 (Drv.C01.recoverRnd Facts.gameEncKey req.challenge.toList out) =
+      some (Crypt.recovered gameKey req.challenge rnd) ∧
+    browserHandle order recs now liveness client (Crypt.recovered gameKey req.challenge rnd) sent = .ok out :=
+  BrowserE2E.browserHandle_recovered order recs now liveness client rnd sent req out hreq h
 
 end Swat4.C01
